@@ -425,6 +425,56 @@ func walkCFFInner(d []byte, t tableRef) []wfield {
 	return w.fields
 }
 
+// ---- bitmap location tables (CBLC / EBLC / bloc) ----
+
+func walkBitmapLoc(d []byte, t tableRef, nGlyphs int) []wfield {
+	w := &walker{d: d, limit: t.Off + t.Len}
+	T := t.Off
+	nSizes, _ := w.u32(T + 4)
+	w.add(T+4, 4, "count", 0, t.Tag+"/header", "numSizes")
+	for _, i := range pick(nSizes) {
+		rec := T + 8 + 48*i
+		g := fmt.Sprintf("%s/size[%d]", t.Tag, i)
+		arr, ok := w.u32(rec)
+		nSub, _ := w.u32(rec + 8)
+		if !ok {
+			break
+		}
+		w.add(rec, 4, "offset", t.Len, g, "indexSubTableArrayOffset")
+		w.add(rec+8, 4, "count", 0, g, "numberOfIndexSubTables")
+		w.add(rec+40, 2, "glyph", nGlyphs, g, "startGlyphIndex")
+		w.add(rec+42, 2, "glyph", nGlyphs, g, "endGlyphIndex")
+		for _, j := range pick(nSub) {
+			e := T + arr + 8*j
+			gs := fmt.Sprintf("%s/subtable[%d]", g, j)
+			add, ok := w.u32(e + 4)
+			if !ok {
+				break
+			}
+			w.add(e, 2, "glyph", nGlyphs, gs, "firstGlyph")
+			w.add(e+2, 2, "glyph", nGlyphs, gs, "lastGlyph")
+			w.add(e+4, 4, "offset", t.Len-arr, gs, "additionalOffsetToIndexSubtable")
+			st := T + arr + add
+			w.add(st, 2, "value", 4, gs, "indexFormat")
+			w.add(st+2, 2, "value", 19, gs, "imageFormat")
+			w.add(st+4, 4, "offset", t.Len, gs, "imageDataOffset")
+			w.add(st+8, 4, "count", 0, gs, "numGlyphs/imageSize/offset[0]")
+		}
+	}
+	return w.fields
+}
+
+// walkHeader treats the first twelve 16-bit fields of a table that has no walker of its own as one
+// structure of counts / sizes, so that pairs of coordinated header edits (a record size with a
+// record count, a format with a count ...) are generated with near-size values.
+func walkHeader(d []byte, t tableRef) []wfield {
+	w := &walker{d: d, limit: t.Off + t.Len}
+	for p := 0; p < 24 && p+2 <= t.Len; p += 2 {
+		w.add(t.Off+p, 2, "size", t.Len-p-2, "hdr/"+strings.TrimSpace(t.Tag), fmt.Sprintf("+%d", p))
+	}
+	return w.fields
+}
+
 // ---- mutants from walked fields ----
 
 func (f wfield) cur(d []byte) int {
@@ -460,6 +510,8 @@ func (f wfield) values(d []byte, siblings []wfield) []int {
 				vs = append(vs, s.cur(d))
 			}
 		}
+	case "size": // a count or a record size in a table header; Bound = bytes left after the field
+		vs = []int{1, f.Bound - 2, 0, f.Bound, max, f.Bound - 4, 2, f.Bound - 8, cur + 1}
 	default: // value
 		vs = []int{f.Bound, max, 0, f.Bound + 1, 1, cur + 1}
 	}
@@ -544,6 +596,13 @@ func walkedMutants(d []byte, fields []wfield, rnd interface{ Intn(int) int }, ma
 				}
 			}
 		}
+		maxPairsPerGroup := maxPairsPerGroup
+		if strings.HasPrefix(g, "CFF/") {
+			maxPairsPerGroup *= 20 // few fonts have these structures: take (nearly) all the pairs
+		}
+		if strings.HasPrefix(g, "hdr/") {
+			maxPairsPerGroup *= 3
+		}
 		if len(pairs) > maxPairsPerGroup {
 			for i := 0; i < maxPairsPerGroup; i++ {
 				j := i + rnd.Intn(len(pairs)-i)
@@ -576,6 +635,14 @@ func walkFont(d []byte, l *layout) []wfield {
 			fields = append(fields, walkGDEF(d, t, l.NumGlyphs)...)
 		case "CFF ", "CFF2":
 			fields = append(fields, walkCFFInner(d, t)...)
+		case "CBLC", "EBLC", "bloc":
+			fields = append(fields, walkBitmapLoc(d, t, l.NumGlyphs)...)
+		case "glyf", "loca", "hmtx", "vmtx", "cvt ", "fpgm", "prep", "name", "DSIG", "CBDT", "EBDT", "bdat", "gasp":
+			// bulk data or no header of counts
+		default:
+			if !t.Required && t.Len >= 8 {
+				fields = append(fields, walkHeader(d, t)...)
+			}
 		}
 	}
 	return fields
@@ -600,7 +667,7 @@ func TestPropWalked(t *testing.T) {
 		walkable := false
 		for _, tb := range l.Tables {
 			switch tb.Tag {
-			case "GSUB", "GPOS", "GDEF":
+			case "GSUB", "GPOS", "GDEF", "CBLC", "EBLC", "bloc", "MVAR", "HVAR", "fvar", "avar", "kern", "morx", "kerx":
 				walkable = true
 			case "CFF ", "CFF2":
 				if info := parseCFF(data, tb); info != nil && (info.FDSelect != 0 || info.Charset != 0 || info.Encoding != 0) {
@@ -648,7 +715,17 @@ func TestPropWalked(t *testing.T) {
 				budget = 40
 			}
 		}
-		for _, m := range sample(all, budget, frnd) {
+		// the mutants of the rare inner CFF structures are all taken, the others are sampled
+		var chosen, others []mutant
+		for _, m := range all {
+			if strings.Contains(m.Note, " CFF/FDSelect ") {
+				chosen = append(chosen, m)
+			} else {
+				others = append(others, m)
+			}
+		}
+		chosen = append(chosen, sample(others, budget, frnd)...)
+		for _, m := range chosen {
 			if co.stopped {
 				break
 			}
